@@ -127,7 +127,8 @@ var propC07 = &simProp{
 	ID: "C07",
 	Profile: func() sim.Profile {
 		p := safetyProfile("C07")
-		p.Patterns = []string{"P1", "P1", "P1", "P12", "P12", "P4b", "P5", "P6", "P11", "free", "P8", "P22", "P22", "P3"}
+		p.Patterns = []string{"P1", "P1", "P1", "P12", "P12", "P4b", "P5", "P6", "P11", "free", "P8", "P22", "P22", "P3", "P30", "P30"}
+		p.Snapshots = "both" // voters that have compacted their log (fully, too) take part in elections
 		return p
 	}(),
 	Owns: []string{"C07"},
